@@ -58,6 +58,25 @@ type VipnodePool struct {
 	mu               sync.Mutex
 	remoteHosts      map[store.NodeID]jsonrpc2.Service
 	remoteNodeLookup map[jsonrpc2.Service]store.NodeID // Reverse lookup
+	updateLocks      map[string]*sync.Mutex            // Serializes the updates of each node
+}
+
+// lockUpdates makes the updates of one node run one at a time. An update reads
+// the node's previous LastSeen, records the new one and bills the time in
+// between: two overlapping updates of the same node would both bill it.
+func (p *VipnodePool) lockUpdates(nodeID string) (unlock func()) {
+	p.mu.Lock()
+	if p.updateLocks == nil {
+		p.updateLocks = map[string]*sync.Mutex{}
+	}
+	l, ok := p.updateLocks[nodeID]
+	if !ok {
+		l = &sync.Mutex{}
+		p.updateLocks[nodeID] = l
+	}
+	p.mu.Unlock()
+	l.Lock()
+	return l.Unlock
 }
 
 // TODO: Move CloseRemote and NumRemotes, and remoteHosts etc into a separate struct?
@@ -145,6 +164,8 @@ func (p *VipnodePool) Update(ctx context.Context, sig string, nodeID string, non
 			return nil, err
 		}
 	}
+
+	defer p.lockUpdates(nodeID)()
 
 	node, err := p.Store.GetNode(store.NodeID(nodeID))
 	if err != nil {
